@@ -131,6 +131,10 @@ class Engine(CoreMixin, ExprMixin, CallMixin, StmtMixin, SpecMixin):
             if spec == 'py:none':
                 st.locals[p.arg] = None
                 continue
+            if isinstance(spec, str) and spec.startswith('py:builtin:'):
+                from .values import Builtin
+                st.locals[p.arg] = Builtin(spec.split(':')[2])
+                continue
             if isinstance(spec, (tuple, list)) or (isinstance(spec, str) and spec.startswith('py:')):
                 st.locals[p.arg] = self.python_param(p.arg, spec)
                 continue
@@ -166,6 +170,9 @@ class Engine(CoreMixin, ExprMixin, CallMixin, StmtMixin, SpecMixin):
                             st.pc.append(alloc0(v.ref))
                         if isinstance(v, Obj) and spec.endswith('!'):
                             st.pc.append(v.ref != NONE)
+        for nm, spec in (c.flags.get('locals') or {}).items():
+            # locals that are not yet assigned when a loop invariant mentions them: arbitrary (uninitialised) values
+            st.locals[nm] = self.sym_for_spec(nm, spec, fresh=False)
         entry = st.copy()
         sframe = self.spec_frame(fr, st, entry)
         for ax in c.axioms:
